@@ -493,12 +493,12 @@ def structural(tid, name, kidx, backend="plotly"):
         args = [d1, d2]
         caller["dict1"], caller["dict2"] = d1, d2
         unit_by_rc = {(1, 1): "auto", (1, 2): "auto"}
-    elif name == "animation_downsampled":
+    elif name in ("animation_downsampled", "animation_oneframe"):
         P7 = [{"p": [k, 0, k % 2], "r": (RZ if k % 2 else I3)} for k in range(7)]
         a = add("a", "Cuboid", G_CUB, P7, bare=True)
         b = add("b", "Polyline", G_POLY, P2, bare=True)
         anim = True
-        kw.update(animation=True, animation_maxframes=3)
+        kw.update(animation=True, animation_maxframes=(3 if name == "animation_downsampled" else 1))      # one frame: the last path position
         args = [a, b]
     elif name == "extra_model3d":
         a = add("a", "Cuboid", G_CUB, P3, bare=False)
@@ -517,7 +517,7 @@ def structural(tid, name, kidx, backend="plotly"):
 
 STRUCT = ["collection", "nested", "collection_moved", "animation", "animation_slider", "subplots_rowcol", "subplots_dict", "style_kwargs",
           "path_hidden", "pending_style", "markers_zoom", "mesh_unchecked", "extra_model3d", "mesh_disconnected", "subplots_same_object",
-          "animation_downsampled", "animation_noslider"]
+          "animation_downsampled", "animation_noslider", "animation_oneframe"]
 
 
 def worker(args):
